@@ -466,7 +466,7 @@ class Gen:
             if self.scroll:
                 kinds += ["ScrollBar", "Scrollable"]
         elif mode == "flow":
-            kinds = ["Pile", "Pile", "Columns", "Columns", "Padding", "LineBox", "AttrMap", "BoxAdapter", "GridFlow"]
+            kinds = ["Pile", "Pile", "Columns", "Columns", "Padding", "LineBox", "AttrMap", "BoxAdapter", "GridFlow", "Filler"]
         else:
             kinds = ["AttrMap", "Pile", "Columns", "Padding"]
         k = rng.choice(kinds)
@@ -487,6 +487,9 @@ class Gen:
         rng = self.rng
         r = {"k": "Filler", "valign": self.valign(), "top": rng.choice([0, 0, 1, 2]), "bottom": rng.choice([0, 0, 1, 3])}
         x = rng.random()
+        if mode == "flow":
+            # a Filler is also a flow widget when its height is 'pack' or given
+            x = 0.0 if x < 0.6 else 0.7
         if x < 0.55:
             r["c"] = self.tree("flow", d)
             r["height"] = "pack"
